@@ -408,6 +408,7 @@ func TestVerifC06(t *testing.T) {
 				// concurrent readers of one key: the load runs inside the shared SingleFlight, so at most one
 				// database query is in flight and every reader gets the same result
 				pk := verifh.Atoi(op[1][1:])
+				rkey := key(op[1]) // resolved here: the map behind key() is not for concurrent use
 				n := verifh.Atoi(c06Opt(op, "n", "4"))
 				var mu sync.Mutex
 				inflight, maxInflight, total, started := 0, 0, 0, 0
@@ -421,7 +422,7 @@ func TestVerifC06(t *testing.T) {
 						started++
 						mu.Unlock()
 						var v c06Row
-						err := cc.QueryRowCtx(ctx, &v, key(op[1]), func(ctx context.Context, conn sqlx.SqlConn, v any) error {
+						err := cc.QueryRowCtx(ctx, &v, rkey, func(ctx context.Context, conn sqlx.SqlConn, v any) error {
 							mu.Lock()
 							inflight++
 							total++
